@@ -226,6 +226,7 @@ class Analysis:
 
 def run(ctx):
     F = ctx.facts
+    r27_3(ctx)
     ctx.rule('R27.1', 'every reporting call is dominated by the enable test of every optional severity / inconclusive '
                       'certainty it can carry (interprocedural path conditions, truth-table decision)')
     ctx.rule('R27.2', 'the option assignments under which a reporting call is reachable are upward closed')
@@ -418,3 +419,44 @@ def fmt_asg(asg):
     on = sorted(a for a, v in asg.items() if v and a in G.SIDX)
     off = sorted(a for a, v in asg.items() if not v and a in G.SIDX and a.startswith(('sev:', 'cert:')))
     return 'on: %s; off: %s' % (','.join(on) or '-', ','.join(off) or '-')
+
+
+def r27_3(ctx):
+    """R27.3  options gate, they do not choose: a function that selects one ValueFlow::Value out of a token's candidates (returns a
+    `const ValueFlow::Value *` found by a loop) tests the severity / certainty options only on the selected value, after the loop.  If a
+    candidate is skipped inside the loop because it is not enabled, the *choice* depends on the options, and enabling one more option can
+    replace or remove a finding that was already reported (non-monotone), although every single report is still correctly gated."""
+    from .common.facts import walk, strip
+    F = ctx.facts
+    ctx.rule('R27.3', 'value-selecting functions test the options after the selection loop, not inside it')
+    OPT = ('Settings::severity', 'Settings::certainty')
+    n = 0
+    for f in F.all_fns():
+        if not f['file'].startswith('lib/'):
+            continue
+        b = F.body(f)
+        if b is None:
+            continue
+        rets = [x for x in walk(b['body']) if x.get('k') == 'ReturnStmt']
+        if not any('ValueFlow::Value *' in (y.get('t') or '') for r in rets for y in walk(r)):
+            continue
+        loops = [x for x in walk(b['body']) if x.get('k') in ('ForStmt', 'CXXForRangeStmt', 'WhileStmt')]
+        if not loops:
+            continue
+        n += 1
+        # locals that hold an option test
+        optlocals = {x['di'] for x in walk(b['body']) if x.get('k') == 'VarDecl' and x.get('init') is not None and
+                     any(y.get('k') == 'MemberExpr' and y.get('n') in OPT for y in walk(x['init']))}
+        hits = []
+        for lp in loops:
+            for y in walk(lp.get('body') or {}):
+                if (y.get('k') == 'MemberExpr' and y.get('n') in OPT) or (y.get('k') == 'DeclRefExpr' and y.get('di') in optlocals):
+                    hits.append(y['l'])
+                if y.get('k') == 'CXXMemberCallExpr' and y.get('fn') == 'Settings::isEnabled':
+                    hits.append(y['l'])
+        ctx.ob('R27.3', 'select:%s' % f['name'], not hits,
+               ('%s selects among the candidate values without consulting the severity / certainty options inside its loop' % f['name']) if not hits else
+               ('%s tests the severity / certainty options inside its selection loop (line %s): which value is chosen depends on the options, so a run with more options '
+                'enabled can report a different value and drop the finding the smaller option set produced' % (f['name'], sorted(set(hits)))),
+               '%s:%s' % (f['file'], hits[0] if hits else f['line']))
+    ctx.floor('R27.3 value-selecting functions', n, 6)
